@@ -2,7 +2,9 @@
    Unrecognised code yields *Unknown / K_OTHER / f_shapes_ok = false, which breaks C08_facts_pinned. *)
 From Coq Require Import ZArith QArith List Bool String.
 Import ListNotations.
-From SbmlExp Require Import SbmlMath SbmlSession.
+From SbmlExp Require Import SbmlMath SbmlIdU SbmlSession.
+(* RE_TO_SBML: which characters of a name are escaped as __<ord>__ *)
+Definition gen_escape : escape_class := EscAscii.
 (* src/mxlpy/sbml/_import.py: read() and import_from_path *)
 Definition gen_import_facts : import_facts := mkImportFacts ReadParseAlways LoaderCompileSource true.
 Definition gen_facts : facts := mkFacts
@@ -17,4 +19,4 @@ Definition gen_facts : facts := mkFacts
   [(K_FUNCTION_LOG, 10%Z)]
   ["math"%string; "np"%string; "numpy"%string]
   [("e"%string, ME); ("pi"%string, MPi); ("inf"%string, MInf); ("nan"%string, MNan)]
-  Product NsSignAbs IaSetSymbol RenSimultaneous RefCounted MathIds true.
+  Product NsSignAbs IaSetSymbol RenSimultaneous RefCounted MathIds BodyAllLast true.
